@@ -325,6 +325,7 @@ func init() {
 			st.ex.res.Observed[key] = m
 		}
 		m[d]++
+		st.noteObservedWitness(key, 1)
 		st.ex.mu.Unlock()
 		return nil
 	}
@@ -683,6 +684,7 @@ func init() {
 			st.ex.res.Observed["global:"+g] = m
 		}
 		m[d]++
+		st.noteObservedWitness("global:"+g, 6)
 		st.ex.mu.Unlock()
 		return nil
 	}
@@ -726,4 +728,28 @@ func init() {
 		}
 		return nil
 	}
+}
+
+// noteObservedWitness (caller holds ex.mu): keeps up to max concrete-input
+// witnesses per observation group, one per distinct input.
+func (st *pstate) noteObservedWitness(key string, max int) {
+	r := st.ex.res
+	if r.ObservedWitness == nil {
+		r.ObservedWitness = map[string][]*Witness{}
+	}
+	ws := r.ObservedWitness[key]
+	if len(ws) >= max {
+		return
+	}
+	w := st.concreteWitness()
+	if w == nil {
+		return
+	}
+	sig := fmt.Sprint(w.Inputs)
+	for _, o := range ws {
+		if fmt.Sprint(o.Inputs) == sig {
+			return
+		}
+	}
+	r.ObservedWitness[key] = append(ws, w)
 }
